@@ -107,6 +107,16 @@ fn fwd_point(c: &Fwd, obs: &mut Obs) -> PropResult {
     let exc = rgb.iter().map(|v| (-v).max(v - 1.0)).fold(f64::MIN, f64::max);
     ensure!(rgb.iter().all(|v| v.is_finite()), "{} ({}, {}, {}) -> RGB {:?} is not finite", name, c.h, c.a, c.b, rgb);
     obs.err(pv::runner::intern(&format!("{}{}: excursion of encoded RGB outside [0,1]", name, if c.f32_ { " f32" } else { "" })), exc.max(0.0));
+    if (3..=5).contains(&c.space) && exc > tau {
+        // the same jump of Ottosson's gamut slice as in the reverse direction: a hue within a few f32 ulps of the blue
+        // primary's Oklab hue (264.052 deg; f32 atan2 of the primary gives -95.947975) takes the neighbouring sector
+        let blue = rf::linsrgb_to_oklab([0.0, 0.0, 1.0]);
+        let hb = blue[2].atan2(blue[1]).to_degrees().rem_euclid(360.0);
+        let dh = (c.h.rem_euclid(360.0) - hb).abs();
+        if dh < 1e-4 {
+            fail_keyed!("C15:okhsx-blue-primary-hue-discontinuity", "{}{} (h {}, {}, {}) -> RGB {:?} leaves [0, 1] by {:e}: the hue is within {:e} deg of the blue primary's, where the gamut slice jumps", name, if c.f32_ { "<f32>" } else { "" }, c.h, c.a, c.b, rgb, exc, dh);
+        }
+    }
     ensure!(exc <= tau, "{}{} (h {}, {}, {}) -> RGB {:?} leaves [0, 1] by {:e} (allowed {:e})", name, if c.f32_ { "<f32>" } else { "" }, c.h, c.a * if c.space == 6 { 100.0 } else { 1.0 }, c.b * if c.space == 6 { 100.0 } else { 1.0 }, rgb, exc, tau);
     if let Some(l) = lin {
         let exc = l.iter().map(|v| (-v).max(v - 1.0)).fold(f64::MIN, f64::max);
@@ -239,12 +249,44 @@ fn special_hues() -> Vec<f64> {
     v
 }
 
+/// the hues palette itself computes (f32 and f64, signed and positive form) for the corners of the sRGB cube and
+/// the midpoints of its edges, in Oklab and in CIELUV: the values a user gets from a conversion and feeds back,
+/// and the only way to land within an f32 ulp of the hues where the gamut procedures switch sectors
+fn exact_hues() -> Vec<f64> {
+    use palette::{Lchuv, Oklch};
+    let mut v = Vec::new();
+    let lv = [0.0f64, 0.5, 1.0];
+    for r in lv {
+        for g in lv {
+            for b in lv {
+                if (r == g && g == b) || ![r, g, b].iter().any(|x| *x == 0.0 || *x == 1.0) {
+                    continue;
+                }
+                let o64 = Oklch::<f64>::from_color_unclamped(palette::Srgb::<f64>::new(r, g, b)).hue;
+                let o32 = Oklch::<f32>::from_color_unclamped(palette::Srgb::<f32>::new(r as f32, g as f32, b as f32)).hue;
+                let l64 = Lchuv::<palette::white_point::D65, f64>::from_color_unclamped(palette::Srgb::<f64>::new(r, g, b)).hue;
+                let l32 = Lchuv::<palette::white_point::D65, f32>::from_color_unclamped(palette::Srgb::<f32>::new(r as f32, g as f32, b as f32)).hue;
+                v.extend([o64.into_raw_degrees(), o64.into_degrees(), o64.into_positive_degrees(), l64.into_raw_degrees(), l64.into_positive_degrees()]);
+                v.extend([o32.into_raw_degrees() as f64, o32.into_degrees() as f64, o32.into_positive_degrees() as f64, l32.into_raw_degrees() as f64, l32.into_positive_degrees() as f64]);
+            }
+        }
+    }
+    v.retain(|x| x.is_finite());
+    v
+}
+
 fn fwd_strategy(space: u8) -> BoxedStrategy<Fwd> {
     let hues = special_hues();
+    let exact = exact_hues();
     let hue = prop_oneof![
         6 => pv::gen::hue(),
         8 => 0.0..360.0f64,
         3 => (0..hues.len(), -2.0..=2.0f64).prop_map(move |(i, d)| hues[i] + d),
+        3 => (0..exact.len(), -3i32..=3, any::<bool>()).prop_map(move |(i, k, wide)| {
+            // the exact value, or a few ulps (of f32 or of f64) away from it
+            let x = exact[i];
+            if wide { (x as f32 + k as f32 * pv::gen::ulp32(x as f32)) as f64 } else { x + k as f64 * pv::gen::ulp64(x) }
+        }),
         1 => (0i32..360).prop_map(|k| k as f64),
     ];
     let u = pv::gen::unit;
